@@ -509,6 +509,28 @@ func (c C14) Run(t *tape.Tape, opt core.RunOpt) (res core.Result) {
 				ops = append(ops, op)
 				return
 			}
+			if failedBefore && load != nil && !faultFired && faultDesc == "" && poisonKind == "" {
+				// no poison, no fault: is the load refused only because of what an
+				// earlier refused load left behind? ("a later valid load behaves as
+				// if the failed one had never happened")
+				m := newRoot()
+				ok := true
+				for _, g := range good {
+					if e := safeLoad(&res, func() error { return applyLoad(m, g) }); e != nil {
+						ok = false
+					}
+				}
+				if ok {
+					if e := safeLoad(&res, func() error { return applyLoad(m, load) }); e == nil {
+						res.Violate("C14", "valid_load_refused_after_failed_load",
+							fmt.Sprintf("%s returned an error (%s) for a document that a fresh root with the same %d successful loads accepts: the refusal comes from what an earlier failed load left behind", api, oneLine(err.Error()), len(good)),
+							map[string]interface{}{"document": op.Doc})
+						op.Outcome = "VIOLATION after " + op.Outcome
+						ops = append(ops, op)
+						return
+					}
+				}
+			}
 			failedBefore = true
 			if api != "AddTypes" && poisonKind != "" {
 				retry = retry[:0]
